@@ -257,6 +257,15 @@ def run_c05(chk):
         for i in range(0, len(sx), 40):
             cases.append(({"root": ("E", "r", {}, [], []), "heads": [], "tails": [], "dtd": None}, sd, [("lit", q) for q in sx[i:i + 40]]))
             qs.append((sd, XP.BINDINGS, sx[i:i + 40]))
+    ax = []
+    for axn in G.AXES:
+        for start in ("/node()", "//node()", "/comment()", "/processing-instruction()", "//@*", "/", "/*", "//text()", "/node()[last()]"):
+            ax += ["%s/%s::node()" % (start, axn), "count(%s/%s::*)" % (start, axn), "%s/%s::node()[1]" % (start, axn)]
+    for sd in SHAPE_DOCS:
+        for i in range(0, len(ax), 40):
+            cases.append(({"root": ("E", "r", {}, [], []), "heads": [], "tails": [], "dtd": None}, sd, [("lit", q) for q in ax[i:i + 40]]))
+            qs.append((sd, XP.BINDINGS, ax[i:i + 40]))
+    chk.cov["shape_stream"] = "%d expressions (every axis from every kind of node) x %d documents of every top-level shape" % (len(ax), len(SHAPE_DOCS))
     chk.cov["special_stream"] = ("%d expressions x %d documents: a namespace-axis step FOLLOWED by further steps from several context "
                                  "elements; string functions over text with Unicode white space that is not XML white space"
                                  % (len(sx), len(SPECIAL_DOCS)))
@@ -339,6 +348,15 @@ def xp_families():
     }
 
 
+SHAPE_DOCS = [
+    "<!--c--><!DOCTYPE r><r/>",
+    "<?p d?><!DOCTYPE r [<!ELEMENT r ANY>]><!--c--><r a='1'>t<b/><!--i--><?q?></r><!--e--><?z?>",
+    "<!DOCTYPE r><r xmlns:p='urn:u1'><p:a p:b='2'/>x<![CDATA[y]]></r>",
+    "<!--a--><?b?><r><a/><a>t</a></r><!--c-->",
+    "<?xml version='1.0'?><!DOCTYPE r SYSTEM 's'><?p?><r/><?q?>",
+]
+
+
 def run_c06(chk):
     thorough = chk.tier == "thorough"
     rng = random.Random(lib.seed())
@@ -386,6 +404,19 @@ def run_c06(chk):
         d = docs[(i // B) % len(docs)]
         qs.append((d[1], XP.BINDINGS, [e for _, e in chunk]))
         meta.append(chunk)
+    # every axis from every kind of node, on documents of every top-level shape (comments / PIs / a document type declaration
+    # before, between and after; attributes, namespace declarations, CDATA): each walk has to END
+    axes_ex = []
+    for ax in G.AXES:
+        for start in ("/node()", "//node()", "/comment()", "/processing-instruction()", "//@*", "//namespace::*", "/", "/*",
+                      "//text()", "/node()[last()]", "/node()[1]"):
+            axes_ex.append(("axes", "%s/%s::node()" % (start, ax)))
+            axes_ex.append(("axes", "count(%s/%s::*)" % (start, ax)))
+    for sd in SHAPE_DOCS:
+        for i in range(0, len(axes_ex), B):
+            chunk = axes_ex[i:i + B]
+            qs.append((sd, XP.BINDINGS, [e for _, e in chunk]))
+            meta.append(chunk)
     per_line = 20 if thorough else 10
     lines = [lib.req("qfresh", t, b, *es) for t, b, es in qs]
     impl = lib.run_lines(lib.build_harness(), lines, timeout=per_line * len(lines), per_line_resume=True)
